@@ -50,6 +50,18 @@ def new_interp(prog):
         return outs
     I.override.append((re.compile(r'(^|::)ActorRef::<.*>::cast$|<impl (\w+::)*ActorRef<.*>>::cast$'), cast))
 
+    def get_status(I, st, f, args, fr):
+        # a forwarder that looks at its subscriber's status sees an arbitrary one
+        sv = I.fresh_int('subscriber_status', 'u8', st)
+        st.assume(z3.ULE(sv.t, 6))
+        st.emit('STATUS_READ', sv)
+        return I.ret(st, SymEnum('ActorStatus', I.cast_int(sv, 'isize')))
+    I.override.append((re.compile(r'(^|::)ActorCell::get_status$|(^|::)ActorRef::<.*>::get_status$'), get_status))
+
+    @I.model(r'^<(\w+::)*ActorRef<.*> as Deref>::deref$', 'ActorRef deref')
+    def m_deref(I, st, f, args, fr):
+        return I.ret(st, args[0])
+
     prev = I.hooks.get('poll_other')
 
     def poll_other(I, st, v, cell, path, cx, fr):
@@ -142,6 +154,7 @@ def check_forwarder(ctx, prog):
     for k, (s, kind, v) in enumerate(res):
         name = 'forwarder.path%d' % k
         tr = [e for e in s.trace if e[0] in ('RECV', 'LAGGED', 'CLOSED', 'RECV_NONE', 'CONVERT', 'CONVERTED', 'CAST', 'RECV_PENDING')]
+        status_reads = [e for e in s.trace if e[0] == 'STATUS_READ']
         cex = lambda m: replay('forwarder')
         claims = {'never_panics': kind in ('ready', 'budget')}
         # walk the trace: every received message is converted exactly once, right away; a Some result is cast exactly once, right away; nothing else is cast
@@ -176,6 +189,9 @@ def check_forwarder(ctx, prog):
                 okk = okk and i == len(tr)
             else:
                 okk = False
+        if status_reads and not okk:
+            # a forwarder that consults the subscriber's status may drop the publication in hand when it gives up; whether giving up was justified is decided below
+            okk = kind == 'ready'
         claims['each_publication_converted_once_and_cast_at_most_once_in_order'] = okk
         # positions delivered are strictly increasing (no duplicate, no reordering) and not before the subscription point
         pos = [c[1][2] for c in casts]
@@ -188,6 +204,9 @@ def check_forwarder(ctx, prog):
             last_cast = casts[-1][0] if casts else None
             if ended_by is None:
                 cond = z3.Not(last_cast[2]) if last_cast is not None and tr and tr[-1] is last_cast else z3.BoolVal(False)
+                # giving up on a subscriber that can no longer take messages (Draining or later) is a dropped subscriber, not a lost subscription
+                if status_reads:
+                    cond = z3.Or(cond, z3.UGE(status_reads[-1][1].t, 4))
                 ctx.prove(name + '.ends_only_on_close_or_refused_delivery', s.pc, cond, group='C16.forwarder.ends_only_on_close_or_refused_delivery', key='C16.forwarder', on_cex=cex)
                 seen.add('ended_by_refusal')
             else:
